@@ -212,6 +212,19 @@ claim("C12", "exploration",
       "updates since the last explicit reset.  Sampled.",
       TB + " MD3 is not placed in ensembles.", "DESIGN.md 4 (C12)")
 
+claim("C14", "fault_enumeration",
+      "runtime monitoring with fault injection: one malformed call injected at enumerated positions of valid histories; "
+      "acceptance-table oracle + no-harm twin (same history without the rejected call) + container twins",
+      "For the 14 zoo detectors: six kinds of malformed call (wrong row count, wrong width, both, renamed / re-ordered "
+      "columns, multi-column data to a univariate detector, several observations in y) in three containers are injected before "
+      "up to 10 positions of each valid history (first, second, right after every drift, last, random): the call must raise "
+      "ValueError exactly when an acceptance table computed from the accepted inputs says so, must not be counted, and every "
+      "later output must equal the run without it; every order of up to three container kinds followed by every mismatching "
+      "input is decided against the table; equal values in every container (scalar, lists, ndarray C / F / strided, Series, "
+      "DataFrame, random mixes) must give identical traces.  Fault positions are enumerated per history; histories sampled.",
+      TB + " One open known finding (DataFrame after arrays skips the width check; pinned by a repository test). MD3's "
+      "refusals are covered in C19.", "DESIGN.md 4 (C14)")
+
 NOT_YET = "check not built yet in this revision of /verif (planned: see DESIGN.md section 4); nothing is claimed for it"
 
 
